@@ -852,6 +852,8 @@ class Interp:
         if kind == "dict":
             d = DictS()
             for k, v in results:
+                if isinstance(k, TupS) and all(isinstance(x, Const) for x in k.elts):
+                    k = Const(tuple(x.v for x in k.elts))
                 if not isinstance(k, Const):
                     return Top("dict comprehension with non-constant key")
                 d.items[k.v] = v
